@@ -809,3 +809,55 @@ func S11(rc *RC) {
 		rc.S.Undec("S11", "tensor#order-flips", "-", "no function flips the data order any more (anchor lost)")
 	}
 }
+
+// S10: the two default-stride calculators are mirror images: same recurrence
+// (strides[i] = acc; acc *= shape[i], acc starting at 1), opposite loop direction.
+func S10(rc *RC) {
+	rc.S.Declare("S10", "stride calculators mirror: CalcStrides (last axis first) and CalcStridesColMajor (first axis first) run the same recurrence strides[i] = acc; acc = acc*shape[i] from acc = 1", 1)
+	type form struct{ init, head, body, pos string }
+	get := func(key string) (form, bool) {
+		fi := anchor(rc, "S10", key)
+		if fi == nil {
+			return form{}, false
+		}
+		_, tree := sCanon(rc, fi)
+		var f form
+		f.pos = rc.P.Pos(fi.Decl.Pos())
+		for i, n := range tree {
+			if n.Kind == "loop" {
+				f.head = n.Head
+				f.body = ir.Render(n.Kids)
+				if i >= 2 {
+					f.init = tree[i-2].Head + " ; " + tree[i-1].Head
+				}
+			}
+		}
+		return f, f.head != ""
+	}
+	r, ok1 := get("tensor.(Shape).CalcStrides")
+	c, ok2 := get("tensor.(Shape).CalcStridesColMajor")
+	if !ok1 || !ok2 {
+		rc.S.Undec("S10", "CalcStrides~CalcStridesColMajor", "-", "no accumulation loop found in one of the calculators")
+		return
+	}
+	wantBody := "%retVal[%i] = %acc\nif (0 > $r[%i])\n  panic(\"negative dimension size does not make sense\")\n%acc = ($r[%i] * %acc)\n"
+	var bad []string
+	norm := func(s string) string { return normPanic(alphaNorm(s)) }
+	if norm(r.body) != norm(c.body) {
+		bad = append(bad, "loop bodies differ: "+firstDiff(norm(r.body), norm(c.body)))
+	}
+	if norm(r.body) != norm(wantBody) && norm(c.body) != norm(wantBody) {
+		bad = append(bad, "neither body is the recurrence strides[i] = acc; acc = acc*shape[i]: "+strings.ReplaceAll(r.body, "\n", " ; "))
+	}
+	if r.init != "%acc = 1 ; %i = (len($r) - 1)" || r.head != "for (%i >= 0) ; %i = (%i - 1)" {
+		bad = append(bad, "CalcStrides does not run from the last axis down with acc = 1: "+r.init+" ; "+r.head)
+	}
+	if c.init != "%acc = 1 ; %i = 0" || c.head != "for (len($r) > %i) ; %i = (%i + 1)" {
+		bad = append(bad, "CalcStridesColMajor does not run from the first axis up with acc = 1: "+c.init+" ; "+c.head)
+	}
+	if len(bad) > 0 {
+		rc.S.Viol("S10", "CalcStrides~CalcStridesColMajor", r.pos, strings.Join(bad, "; ")).Sig = strings.Join(bad, "; ")
+	} else {
+		rc.S.Ok("S10", "CalcStrides~CalcStridesColMajor", r.pos, "same recurrence, mirrored direction")
+	}
+}
